@@ -113,8 +113,49 @@ func (g *Gen) call(in ssa.Instruction, c *ssa.CallCommon, rt types.Type) Val {
 	}
 	// closure called directly: inline it when asked to, or when it is a local literal
 	if mc, ok := c.Value.(*ssa.MakeClosure); ok {
-		if ci := g.closures[mc]; ci != nil && len(ci.fn.Blocks) > 0 && g.E.contracts.Funcs[key] == nil {
+		if ci := g.closures[mc]; ci != nil && len(ci.fn.Blocks) > 0 && (g.E.contracts.Funcs[key] == nil || g.E.contracts.Funcs[key].Opts["inline"] == "true") {
 			return g.inlineCall(ci.fn, ci.binds, args, rt, pos)
+		}
+	}
+	// assertions the enclosing function's contract attaches to calls of this callee (callsite clauses),
+	// evaluated in the caller's scope with source-variable names
+	if g.fc != nil && key != "" {
+		for i, cs := range g.fc.Callsites {
+			if cs.Callee != key || cs.E == nil {
+				continue
+			}
+			blk := in.Block()
+			env := g.fnEnv(g.cur, nil)
+			g.lookupPos = pos
+			env.lookup = func(name string) (Val, bool) {
+				if v, ok := g.lookupVar(name, blk, -1, g.cur); ok {
+					return v, true
+				}
+				if g.outerLookup != nil {
+					return g.outerLookup(name, g.cur)
+				}
+				return Val{}, false
+			}
+			for n, v := range g.params {
+				// captured variables of a closure are cells: their name denotes the current value
+				if v.Addr != nil && v.Addr.Kind == "cell" && g.freeVarNames[n] {
+					env.vars[n] = g.loadQuiet(g.cur, v, v.Addr.ElemT)
+				}
+			}
+			for ai, av := range args {
+				env.vars[fmt.Sprintf("arg%d", ai)] = av // the call's actual arguments (arg0 is the receiver of a method call)
+			}
+			s, err := g.evalBool(env, cs.E)
+			if err != nil {
+				g.E.fatalf("%s:%d: %v", cs.File, cs.Line, err)
+				continue
+			}
+			label := cs.Label
+			if label == "" {
+				label = fmt.Sprintf("%s-%d", key, i+1)
+			}
+			g.oblige("assert", label+" @ "+text, s, pos, cs.Text)
+			g.assume(s)
 		}
 	}
 	if v, ok := g.atomicCall(key, args, rt, pos, text); ok {
@@ -236,6 +277,7 @@ func (g *Gen) applyContract(fc *FuncContract, key string, sig *types.Signature, 
 	if fc.Opts["modifies"] == "all" {
 		g.havocAll(g.cur, key)
 	}
+	env.st = old // locations of a modifies clause denote objects of the pre-state
 	for _, m := range fc.Modifies {
 		for _, le := range m.Es {
 			if err := g.havocLoc(env, le); err != nil {
